@@ -79,12 +79,17 @@ func (v *Vue) evalInclude(ctx VueContext, node *html.Node, vars map[string]any, 
 		stampOnce(n)
 	}
 
+	// The component is evaluated in its own template context. This includes its
+	// root <template> tag: when that tag is itself an include, the inclusion
+	// chain must already contain this file, or a component that starts with an
+	// include of itself would recurse without ever reaching the depth limit.
+	childCtx := ctx.WithTemplate(name)
+
 	// Validate and process template tag
-	processedDom, err := v.evalTemplate(ctx, compDom, ctx.stack.EnvMap(), depth+1)
+	processedDom, err := v.evalTemplate(childCtx, compDom, ctx.stack.EnvMap(), depth+1)
 	if err != nil {
 		return nil, fmt.Errorf("error in %s (included from %s): %w", name, ctx.FormatTemplateChain(), err)
 	}
 
-	childCtx := ctx.WithTemplate(name)
 	return v.evaluate(childCtx, processedDom, depth+1)
 }
